@@ -63,6 +63,19 @@ pub const SP_PUSH_LOAD: u32 = 81;
 pub const SP_PUSH_NEXT: u32 = 82;
 pub const SP_PUSH_CAS: u32 = 83;
 
+/// pool.rs `MemoryPool::allocate`: before try_lock (note: 1 acquired / 0 busy), before pop_front
+/// under the lock (note: 1 chunk taken / 0 empty), before the miss path, before the byte accounting
+pub const MP_ALLOC_LOCK: u32 = 91;
+pub const MP_ALLOC_POP: u32 = 92;
+pub const MP_ALLOC_MISS: u32 = 93;
+pub const MP_ALLOC_STATS: u32 = 94;
+/// pool.rs `MemoryPool::deallocate`: before try_lock, before the capacity check and push_back under
+/// the lock (note: 1 pooled / 0 full), before the chunk is released, before the byte accounting
+pub const MP_FREE_LOCK: u32 = 101;
+pub const MP_FREE_PUSH: u32 = 102;
+pub const MP_FREE_DIRECT: u32 = 103;
+pub const MP_FREE_STATS: u32 = 104;
+
 thread_local! {
     static HOOK: RefCell<Option<Callback>> = const { RefCell::new(None) };
 }
